@@ -20,9 +20,16 @@ BASES = [
     b"A (1,2)", b"A (@1:3,5)", b"A ()", b"A (1),(2)", b"A (@1!2,3!4:5!6)", b"A (1,2:3,-4.5e1)", b"A (@1!2!3)",
     b"A 1 ,2", b"A 1, 2", b"A 1 , 2 ;B", b"A ;B", b"A; B", b"A ; B", b"A\n", b"A \n", b"A?;B?\n", b"A? 1;*IDN?", b"A;",
     b"*IDN;:A", b"*A;AB:A?", b"A;*IDN;B 1", b"*IDN?;:SYST:ERR?",
+    b"A 255", b"A 256", b"A 65536", b"A 32768", b"A 2147483648", b"A 4294967296", b"A 9223372036854775808", b"A 18446744073709551616", b"A -129,-32769",
     b"SYST:ERR?", b"SYSTem:ERRor:NEXT?;COUN?", b":SYST:ERR:COUN?;:AB:A 'x',#11y,(z),Q,#H1,1 S,2",
     b"A 1;B 'two';E #13abc;H (4);A FIVE;B #H6;E 7 S",
 ]
+
+
+# long / malformed inputs that are only listed (no corruption): over-long elements far beyond every limit
+LISTED = [b"A '" + b"s" * 300 + b"'", b"A #3300" + b"b" * 300, b"A #3301" + b"b" * 300, b"A '" + b"s" * 300, b"A " + b"X" * 256, b"A " + b"X" * 270, b"A 1 " + b"S" * 256, b"Y" * 260 + b" 1", b"A " + b"9" * 300, b"A 1e" + b"9" * 300,
+          b"A #H" + b"F" * 300, b"A (" + b"1," * 200 + b"1)", b"A (@" + b"1!" * 200 + b"1)", b"A " + b"1," * 300 + b"1", b":" * 300, b";" * 300,
+          b"A" + b":A" * 200, b"A?" + b";A?" * 200, b"*" + b"Z" * 300]
 
 
 def mc_text(name, mode, alphabet, maxlen, prefix, bases):
@@ -101,7 +108,8 @@ def explore(chk, prop, tier):
             ("data4", "enum", REDUCED, 4 if not th else 5, b"A ", []),
             ("start4", "enum", REDUCED, 3 if not th else 4, b"AB:", []),
             ("hdr5", "enum", HDRS, 5 if not th else 6, b"", []),
-            ("corrupt", "corrupt", [], 0, b"", BASES)]
+            ("corrupt", "corrupt", [], 0, b"", BASES),
+            ("listed", "list", [], 0, b"", LISTED)]
     if th:
         plan.append(("data-full4", "enum", alpha, 4, b"A ", []))
     tot = {"cases": 0, "W": 0, "M": 0, "U": 0, "conversions": 0}
